@@ -13,7 +13,7 @@
    execution by the recording canvas (tools/props/c16.py). *)
 From Coq Require Import String List.
 From Coq Require Import ZArith.
-Require Import TV.Model.Py TV.Model.Rt TV.Model.Interp TV.Proofs.RtFrame TV.Proofs.Spacetime TV.Proofs.StampInj.
+Require Import TV.Model.Py TV.Model.Rt TV.Model.Interp TV.Proofs.RtFrame TV.Proofs.Spacetime TV.Proofs.StampInj TV.Proofs.StampCert.
 Import ListNotations.
 
 Theorem C16_slip_stamps_unique_partial : forall (A : Type) (eq_dec : forall x y : A, {x = y} + {x <> y}) l seen,
@@ -62,3 +62,13 @@ Theorem C16_relative_without_enclosing_collides :
   let stamp := coord_stamp (fun i => match i with 1 => Some 0 | _ => None end) in
   st_stamp Z stamp [] [1] (at_ [0; 1]%Z) = st_stamp Z stamp [] [1] (at_ [4; 5]%Z) /\ [0; 1]%Z <> [4; 5]%Z.
 Proof. exact relative_without_enclosing_collides. Qed.
+
+(* the per-program certificate (structure read off the emitted text by tools/stampview.py, decided by the
+   kernel on every program whose stamps are loop variables, positions or relative coordinates) *)
+Theorem C16_stamp_certificate_sound_partial : forall n pl space time,
+  stamp_cert_okb n pl space time = true ->
+  forall (fiber : nat -> (nat -> Z) -> list Z) (is_pos : nat -> bool),
+  (forall i p q, (forall j, j < i -> p j = q j) -> fiber i p = fiber i q) ->
+  forall its : list (list Z), (forall p, In p its -> length p = n /\ runs fiber n (at_ p)) -> NoDup its ->
+  NoDup (map (fun p => st_stamp Z (mixed_stamp (parent_of pl) fiber is_pos) space time (at_ p)) its).
+Proof. exact stamp_cert_sound. Qed.
